@@ -18,7 +18,7 @@ EXTENDS Values
 
 Absent == [p |-> FALSE, v |-> NullV]
 Present(v) == [p |-> TRUE, v |-> v]
-AsMap(item) == [t |-> "M", v |-> item]
+AsMap(item) == Mk("M", item)
 
 ----------------------------------------------------------------------------
 (* paths *)
@@ -33,8 +33,8 @@ GetIn(val, steps) ==
   IF steps = <<>> THEN Present(val)
   ELSE LET st == Head(steps) IN
        IF st.s = "n"
-       THEN IF val.t = "M" /\ st.n \in DOMAIN val.v THEN GetIn(val.v[st.n], Tail(steps)) ELSE Absent
-       ELSE IF val.t = "L" /\ st.i + 1 \in DOMAIN val.v THEN GetIn(val.v[st.i + 1], Tail(steps)) ELSE Absent
+       THEN IF val.t = "M" /\ st.n \in DOMAIN val.m THEN GetIn(val.m[st.n], Tail(steps)) ELSE Absent
+       ELSE IF val.t = "L" /\ st.i + 1 \in DOMAIN val.l THEN GetIn(val.l[st.i + 1], Tail(steps)) ELSE Absent
 GetPath(item, rpath) == GetIn(AsMap(item), rpath)
 
 MapPut(m, n, v) == [k \in (DOMAIN m) \cup {n} |-> IF k = n THEN v ELSE m[k]]
@@ -47,15 +47,15 @@ SetIn(val, steps, new) ==
   ELSE LET st == Head(steps) IN
        IF st.s = "n"
        THEN IF val.t # "M" THEN [ok |-> FALSE, v |-> val]
-            ELSE IF Len(steps) = 1 THEN [ok |-> TRUE, v |-> [t |-> "M", v |-> MapPut(val.v, st.n, new)]]
-            ELSE IF st.n \notin DOMAIN val.v THEN [ok |-> FALSE, v |-> val]
-            ELSE LET r == SetIn(val.v[st.n], Tail(steps), new)
-                 IN [ok |-> r.ok, v |-> [t |-> "M", v |-> MapPut(val.v, st.n, r.v)]]
+            ELSE IF Len(steps) = 1 THEN [ok |-> TRUE, v |-> Mk("M", MapPut(val.m, st.n, new))]
+            ELSE IF st.n \notin DOMAIN val.m THEN [ok |-> FALSE, v |-> val]
+            ELSE LET r == SetIn(val.m[st.n], Tail(steps), new)
+                 IN [ok |-> r.ok, v |-> Mk("M", MapPut(val.m, st.n, r.v))]
        ELSE IF val.t # "L" THEN [ok |-> FALSE, v |-> val]
-            ELSE IF st.i + 1 \in DOMAIN val.v
-                 THEN LET r == SetIn(val.v[st.i + 1], Tail(steps), new)
-                      IN [ok |-> r.ok, v |-> [t |-> "L", v |-> [val.v EXCEPT ![st.i + 1] = r.v]]]
-                 ELSE IF Len(steps) = 1 THEN [ok |-> TRUE, v |-> [t |-> "L", v |-> Append(val.v, new)]]
+            ELSE IF st.i + 1 \in DOMAIN val.l
+                 THEN LET r == SetIn(val.l[st.i + 1], Tail(steps), new)
+                      IN [ok |-> r.ok, v |-> Mk("L", [val.l EXCEPT ![st.i + 1] = r.v])]
+                 ELSE IF Len(steps) = 1 THEN [ok |-> TRUE, v |-> Mk("L", Append(val.l, new))]
                  ELSE [ok |-> FALSE, v |-> val]
 
 \* remove a set of paths, all of them referring to the ORIGINAL value (list indexes do not shift)
@@ -65,15 +65,15 @@ RemIn(val, suffixes) ==
   ELSE IF val.t = "M"
   THEN LET names == { s[1].n : s \in { x \in suffixes : x[1].s = "n" } }
            gone  == { n \in names : \E s \in suffixes : s[1].s = "n" /\ s[1].n = n /\ Len(s) = 1 }
-           keep  == (DOMAIN val.v) \ gone
-       IN [t |-> "M", v |-> [k \in keep |->
-              RemIn(val.v[k], { Tail(s) : s \in { x \in suffixes : x[1].s = "n" /\ x[1].n = k /\ Len(x) > 1 } })]]
+           keep  == (DOMAIN val.m) \ gone
+       IN Mk("M", [k \in keep |->
+              RemIn(val.m[k], { Tail(s) : s \in { x \in suffixes : x[1].s = "n" /\ x[1].n = k /\ Len(x) > 1 } })])
   ELSE IF val.t = "L"
-  THEN LET gone == { i \in DOMAIN val.v : \E s \in suffixes : s[1].s = "i" /\ s[1].i + 1 = i /\ Len(s) = 1 }
-           sub(i) == RemIn(val.v[i], { Tail(s) : s \in { x \in suffixes : x[1].s = "i" /\ x[1].i + 1 = i /\ Len(x) > 1 } })
-           F[i \in 0..Len(val.v)] == IF i = 0 THEN <<>>
+  THEN LET gone == { i \in DOMAIN val.l : \E s \in suffixes : s[1].s = "i" /\ s[1].i + 1 = i /\ Len(s) = 1 }
+           sub(i) == RemIn(val.l[i], { Tail(s) : s \in { x \in suffixes : x[1].s = "i" /\ x[1].i + 1 = i /\ Len(x) > 1 } })
+           F[i \in 0..Len(val.l)] == IF i = 0 THEN <<>>
                                      ELSE IF i \in gone THEN F[i-1] ELSE Append(F[i-1], sub(i))
-       IN [t |-> "L", v |-> F[Len(val.v)]]
+       IN Mk("L", F[Len(val.l)])
   ELSE val
 
 IsPrefixPath(a, b) == Len(a) <= Len(b) /\ \A i \in DOMAIN a :
@@ -101,7 +101,7 @@ Opd(o, item, names, values) ==
     [] o.k = "size" -> IF ~ResolveOK(o.p, names) THEN [st |-> "err", v |-> NullV, lit |-> FALSE]
                        ELSE LET g == GetPath(item, Resolve(o.p, names))
                             IN IF g.p /\ g.v.t \in {"S","B","L","M","SS","NS","BS"}
-                               THEN [st |-> "ok", v |-> [t |-> "N", v |-> DOfNat(VSize(g.v))], lit |-> FALSE]
+                               THEN [st |-> "ok", v |-> Mk("N", DOfNat(VSize(g.v))), lit |-> FALSE]
                                ELSE [st |-> "soft", v |-> NullV, lit |-> FALSE]
     [] OTHER        -> [st |-> "err", v |-> NullV, lit |-> FALSE]
 
@@ -131,15 +131,15 @@ BetweenO(x, lo, hi) ==
        ELSE {"F"}
 
 ContainsRule(p, o) ==
-  CASE p.t = "S"  /\ o.t = "S" -> B2O(IsSubB(o.v, p.v))
-    [] p.t = "B"  /\ o.t = "B" -> B2O(IsSubB(o.v, p.v))
-    [] p.t = "SS" /\ o.t = "S" -> B2O(o.v \in SetOf(p.v))
-    [] p.t = "BS" /\ o.t = "B" -> B2O(o.v \in SetOf(p.v))
-    [] p.t = "NS" /\ o.t = "N" -> B2O(\E i \in DOMAIN p.v : DEq(p.v[i], o.v))
-    [] p.t = "L"               -> B2O(\E i \in DOMAIN p.v : SameValue(p.v[i], o))
+  CASE p.t = "S"  /\ o.t = "S" -> B2O(IsSubB(o.s, p.s))
+    [] p.t = "B"  /\ o.t = "B" -> B2O(IsSubB(o.b, p.b))
+    [] p.t = "SS" /\ o.t = "S" -> B2O(o.s \in SetOf(p.ss))
+    [] p.t = "BS" /\ o.t = "B" -> B2O(o.b \in SetOf(p.bs))
+    [] p.t = "NS" /\ o.t = "N" -> B2O(\E i \in DOMAIN p.ns : DEq(p.ns[i], o.n))
+    [] p.t = "L"               -> B2O(\E i \in DOMAIN p.l : SameValue(p.l[i], o))
     [] OTHER                   -> Lenient
 
-TypeNameOK(v) == v.t = "S" /\ v.v \in { <<83>>, <<78>>, <<66>>, <<66,79,79,76>>, <<78,85,76,76>>, <<76>>, <<77>>,
+TypeNameOK(v) == v.t = "S" /\ v.s \in { <<83>>, <<78>>, <<66>>, <<66,79,79,76>>, <<78,85,76,76>>, <<76>>, <<77>>,
                                          <<83,83>>, <<78,83>>, <<66,83>> }
 TagBytes(t) == CASE t = "S" -> <<83>> [] t = "N" -> <<78>> [] t = "B" -> <<66>> [] t = "BOOL" -> <<66,79,79,76>>
                  [] t = "NULL" -> <<78,85,76,76>> [] t = "L" -> <<76>> [] t = "M" -> <<77>>
@@ -156,14 +156,14 @@ FnO(f, args, item, names, values) ==
          ELSE IF A(1).st = "err" \/ A(2).st = "err" THEN {"E"}
          ELSE IF ~TypeNameOK(A(2).v) THEN {"E"}
          ELSE IF A(1).st = "missing" THEN {"F"}
-         ELSE B2O(TagBytes(A(1).v.t) = A(2).v.v)
+         ELSE B2O(TagBytes(A(1).v.t) = A(2).v.s)
     [] f = "begins_with" ->
          IF Len(args) # 2 \/ args[1].k # "path" THEN {"E"}
          ELSE IF A(1).st = "err" \/ A(2).st = "err" THEN {"E"}
          ELSE IF A(2).st = "soft" THEN Lenient
          ELSE IF A(2).st = "ok" /\ A(2).lit /\ A(2).v.t \notin {"S","B"} THEN {"E"}
          ELSE IF A(1).st = "missing" \/ A(2).st = "missing" THEN {"F"}
-         ELSE IF A(1).v.t = A(2).v.t /\ A(1).v.t \in {"S","B"} THEN B2O(IsPrefixB(A(2).v.v, A(1).v.v))
+         ELSE IF A(1).v.t = A(2).v.t /\ A(1).v.t \in {"S","B"} THEN B2O(IsPrefixB(Pay(A(2).v), Pay(A(1).v)))
          ELSE Lenient
     [] f = "contains" ->
          IF Len(args) # 2 \/ args[1].k # "path" THEN {"E"}
@@ -224,8 +224,8 @@ Rhs(o, item, names, values) ==   \* [ok, v]; always evaluated on the PRE-update 
              b == Rhs(o.r, item, names, values)
          IN IF ~a.ok \/ ~b.ok THEN [ok |-> FALSE, v |-> NullV]
             ELSE IF a.v.t # "N" \/ b.v.t # "N" THEN [ok |-> FALSE, v |-> NullV]
-            ELSE LET r == IF o.k = "plus" THEN DAdd(a.v.v, b.v.v) ELSE DSub(a.v.v, b.v.v)
-                 IN [ok |-> DValid(r), v |-> [t |-> "N", v |-> r]]
+            ELSE LET r == IF o.k = "plus" THEN DAdd(a.v.n, b.v.n) ELSE DSub(a.v.n, b.v.n)
+                 IN [ok |-> DValid(r), v |-> Mk("N", r)]
     [] o.k = "ine"  -> IF ~ResolveOK(o.p, names) THEN [ok |-> FALSE, v |-> NullV]
                        ELSE LET g == GetPath(item, Resolve(o.p, names))
                             IN IF g.p THEN [ok |-> TRUE, v |-> g.v] ELSE Rhs(o.v, item, names, values)
@@ -233,7 +233,7 @@ Rhs(o, item, names, values) ==   \* [ok, v]; always evaluated on the PRE-update 
                            b == Rhs(o.r, item, names, values)
                        IN IF ~a.ok \/ ~b.ok THEN [ok |-> FALSE, v |-> NullV]
                           ELSE IF a.v.t # "L" \/ b.v.t # "L" THEN [ok |-> FALSE, v |-> NullV]
-                          ELSE [ok |-> TRUE, v |-> [t |-> "L", v |-> a.v.v \o b.v.v]]
+                          ELSE [ok |-> TRUE, v |-> Mk("L", a.v.l \o b.v.l)]
     [] OTHER        -> [ok |-> FALSE, v |-> NullV]
 
 SetTypes == {"SS", "NS", "BS"}
@@ -284,12 +284,12 @@ ApplyU(u, item, names, values, keyAttrs) ==
                                     ELSE [ok |-> FALSE, m |-> m])
          ELSE LET cur == m[n] IN
               IF cur.t = "N" /\ v.t = "N"
-              THEN LET r == DAdd(cur.v, v.v) IN [ok |-> DValid(r), m |-> MapPut(m, n, [t |-> "N", v |-> r])]
+              THEN LET r == DAdd(cur.n, v.n) IN [ok |-> DValid(r), m |-> MapPut(m, n, Mk("N", r))]
               ELSE IF cur.t \in SetTypes /\ v.t = cur.t
-              THEN [ok |-> TRUE, m |-> MapPut(m, n, [t |-> cur.t, v |-> UnionSeq(cur.t, cur.v, v.v)])]
+              THEN [ok |-> TRUE, m |-> MapPut(m, n, Mk(cur.t, UnionSeq(cur.t, Pay(cur), Pay(v))))]
               ELSE [ok |-> FALSE, m |-> m]
       A[i \in 0..Len(u.add)] ==
-         IF i = 0 THEN [ok |-> afterSet.ok, m |-> afterSet.v.v]
+         IF i = 0 THEN [ok |-> afterSet.ok, m |-> afterSet.v.m]
          ELSE IF ~A[i-1].ok THEN A[i-1]
          ELSE AddOne(A[i-1].m, Resolve(u.add[i].p, names)[1].n, av[i].v)
       afterAdd == A[Len(u.add)]
@@ -298,9 +298,9 @@ ApplyU(u, item, names, values, keyAttrs) ==
          ELSE IF n \notin DOMAIN m THEN [ok |-> TRUE, m |-> m]
          ELSE LET cur == m[n] IN
               IF cur.t # v.t THEN [ok |-> FALSE, m |-> m]
-              ELSE LET rest == DiffSeq(cur.t, cur.v, v.v)
+              ELSE LET rest == DiffSeq(cur.t, Pay(cur), Pay(v))
                    IN IF rest = <<>> THEN [ok |-> TRUE, m |-> MapDel(m, {n})]
-                      ELSE [ok |-> TRUE, m |-> MapPut(m, n, [t |-> cur.t, v |-> rest])]
+                      ELSE [ok |-> TRUE, m |-> MapPut(m, n, Mk(cur.t, rest))]
       D[i \in 0..Len(u.del)] ==
          IF i = 0 THEN afterAdd
          ELSE IF ~D[i-1].ok THEN D[i-1]
@@ -308,7 +308,7 @@ ApplyU(u, item, names, values, keyAttrs) ==
       afterDel == D[Len(u.del)]
       rem == { Resolve(u.remove[i], names) : i \in DOMAIN u.remove }
   IN IF ~afterDel.ok THEN bad
-     ELSE [ok |-> TRUE, item |-> RemIn([t |-> "M", v |-> afterDel.m], rem).v]
+     ELSE [ok |-> TRUE, item |-> RemIn(Mk("M", afterDel.m), rem).m]
 
 RECURSIVE RhsNames(_), RhsVals(_)
 RhsNames(o) == CASE o.k = "path" -> PathNames(o.p)
